@@ -1,28 +1,53 @@
 """C27 — lock operations leave recoverable state at every crash point
-(breezy/lockdir.py: _create_pending_dir, _remove_pending_dir, unlock,
-force_break, force_break_corrupt).
+(breezy/lockdir.py: _create_pending_dir, _remove_pending_dir, _attempt_lock,
+unlock, confirm, force_break, force_break_corrupt).
 
-Model: the lock-directory model of C26 (lean/BreezyVerif/Model/C26.lean) plus
-Model/C27.lean (classification of the on-disk state, recovery procedures).
+Model: the lock-directory model of C26 (lean/BreezyVerif/Model/C26.lean, not
+touched here) plus Model/C27.lean: classification of the on-disk state, the
+recovery procedures, and a *layer* with one more event, the lost reply
+(`l<i><T|P>`: a pending rename of held/ takes effect and then raises), in two
+variants of the contention handler of `_attempt_lock` (probed on the real code
+on every run: does it recognise its own current nonce in held/?).
 
-T2 (same gated-transport engine as C26, see checks/c26.py): real LockDir objects
-on a MemoryTransport (thorough: also a local directory) execute
-  * every crash prefix of attempt (free / contended / stealing from a dead
-    holder), unlock, break_lock and break_lock on corrupt info: the victim stops
-    after k transport calls for every k and never moves again (no finally runs);
+T2 (gated-transport engine of C26, see checks/c26.py; `LostGate`/`World27`
+here add the lost-reply directive): real LockDir objects on a MemoryTransport
+(thorough: also a local directory) execute
+  * every crash prefix of 14 victim scenarios — attempt on a free / contended /
+    foreign-held lock, stealing attempt, a second attempt after an orphaned
+    one, unlock, unlock of a lock that was broken / broken and retaken behind
+    the victim's back, confirm (held / broken), break_lock of a live / dead /
+    corrupt lock: the victim stops after k transport calls for every k and
+    never moves again (no finally runs);
   * every single fault: call k of each of those operations raises a
     TransportError (kind T) or a PathError (kind P), the operation then runs to
-    completion;
+    completion; every single lost reply (each rename of each scenario);
+  * every pair of faults (both kinds each) within one operation for attempt
+    free / contended / stealing, unlock and break_lock of a dead holder's lock:
+    second fault at every call after the first one, cleanup calls included;
   * torn / empty / garbage `held/info` files (malformed stream);
-  * random interleavings of 2-4 lockers with crashes and faults;
+  * random interleavings of 2-4 lockers with crashes, faults and lost replies;
 each followed by a *fresh* real LockDir that recovers (attempt; if contended
 break_lock then attempt).  After every event the directory listing, the
 classification of the lock seen by a fresh `peek()`, pending calls, is_held and
 results are compared with the model.
+Oracle only (the model starts from an existing lock directory): the same crash /
+fault / lost-reply enumeration for attempt, break_lock and unlock when the lock
+directory itself does not exist yet (`_create_pending_dir` -> `create()` ->
+second mkdir).
 Oracle (real objects only): (R1) after every event `held/` is absent or
-`peek()` returns holder info; (R2) the fresh locker ends up holding the lock;
+`peek()` returns holder info (from a lock with unparsable info: never `held/`
+without any info); (R2) the fresh locker ends up holding the lock;
 (R3) when attempt_lock raised, is_held is False and `held/info` does not carry
 the nonce of the failed attempt.
+
+Findings (families computed from the concrete events):
+  attempt-fault-at-confirming-peek-after-rename (known, F20): a transport error
+    in a peek right after the rename into place took effect;
+  attempt-rename-lost-reply: the rename into place takes effect but raises; the
+    contention handler finds a live holder (itself) and raises LockContention
+    with held/ carrying its own nonce (Lean: lost_reply_rename_witness; with the
+    three-line fix the variant probe selects the other model variant and
+    lost_reply_rename_fixed applies).
 
 Mutants this was built against (scratch worktree; result of the run in brackets):
   N1 `_create_pending_dir`/`_attempt_lock`: info written after the rename into place
@@ -36,7 +61,18 @@ Mutants this was built against (scratch worktree; result of the run in brackets)
   N6 `_remove_pending_dir`: deletes `held/info` instead of the pending info [R1: HeldNoInfo after a contended attempt]
   N7 `_attempt_lock`: `_remove_pending_dir` dropped on contention [T2 only (listing differs): leftovers are not
      a violation of C27's statement]
+  N8 `_create_pending_dir`: `return tmpname` right after the second mkdir of the create() branch (info never
+     written when the lock directory had to be created) [R1: HeldNoInfo — only in the no-lock-directory cases]
+  N9 `unlock`: LockBroken from confirm() swallowed, the rename away goes ahead [T2 only: unlock-retaken /
+     unlock-broken scenarios; removing somebody else's lock is C26's property]
+  N10 `_remove_pending_dir`: on NoSuchFile "takes held/ out of the way again" (delete held/info, rmdir held)
+     [R1: HeldNoInfo between the two calls — only after a lost reply of the rename into place]
+  N11 `confirm`: a lock with another nonce but the same pid is accepted [T2 only: unlock-retaken, confirm scenarios]
+  S2 (seeded by the coordinator, /var/tmp/seed-C27b) `force_break_corrupt` dismantles held/ in place (delete info,
+     rmdir held) instead of renaming it away [R1/R2: crash after call 3 or fault at call 4 of break_lock on a corrupt
+     lock: HeldNoInfo, "a fresh locker cannot take the lock"; memory transport (strict rename)]
   H2 harmless: temporaries renamed / built with str.format [clean: 0 mismatches, only the known family]
+  H3 harmless: `unlock` builds the releasing name with "/".join [clean: 0 mismatches]
 """
 import os
 
@@ -46,22 +82,89 @@ from checks import c26
 THEOREMS = [
     "crash_recoverable", "pending_complete", "fresh_acquires_free", "fresh_acquires_after_break",
     "recover_after_any_crash", "corrupt_info_break", "failed_attempt_not_held_partial",
-    "orphan_only_by_fault_at_confirm", "failed_attempt_witness", "flag_set_only_by_successful_confirm",
-    "failed_attempt_solo",
+    "disk_serial_le_current", "latest_attempt_leaves_no_nonce", "orphan_serial_origin",
+    "failed_attempt_witness", "flag_set_only_by_successful_confirm", "failed_attempt_solo", "failed_steal_solo",
+    "heldNoInfo_unrecoverable", "heldNoInfo_witness",
+    "crash_recoverable_lost", "run27_base", "lost_reply_rename_witness", "lost_reply_rename_fixed",
 ]
 RUST = ("cmd-py",)
-RULE = ("a case is (lockers, initial held/, event list incl. crash and fault events, recovery by a fresh locker); "
-        "crash prefixes and single faults of six victim scenarios are enumerated completely; non-trivial = the "
-        "victim stopped or failed strictly inside an operation (at least one transport call done, not all)")
+RULE = ("a case is (lockers, initial held/, event list incl. crash, fault and lost-reply events, recovery by a fresh "
+        "locker); crash prefixes, single faults and single lost replies of 14 victim scenarios and all pairs of faults "
+        "of five of them are enumerated completely; non-trivial = the victim stopped or failed strictly inside an "
+        "operation (at least one transport call done, not all)")
 ASSUMPTIONS = list(c26.ASSUMPTIONS) + [
     "a crash is 'the process performs no further transport call' (no finally/except runs); a single "
     "transport call is atomic (put_bytes_non_atomic of the small info file into a private directory is not torn "
     "in place: torn info files are covered as initial states, and are shown unreachable in held/)",
+    "a lost reply is modelled for the four renames of held/ only (on other calls the event is the plain fault); a "
+    "rename of a directory is atomic",
+    "a lock directory that does not exist yet (create() path of _create_pending_dir) is outside the model: those "
+    "cases are checked by the oracle (R1-R3) only",
 ]
 TRUSTED = list(c26.TRUSTED)
 FAMILY_CONFIRM = "attempt-fault-at-confirming-peek-after-rename"
 
+FAMILY_LOST = "attempt-rename-lost-reply"
+
 V, O, R = 0, 1, 2          # victim, other, recovering locker
+
+
+class LostGate(c26.GateTransport):
+    """the gate of C26 plus the directives LT / LP (event `l<i><T|P>`): a *lost reply* — a pending rename is
+    performed on the real transport and then raises the transport error; on any other pending call the
+    directive is the ordinary fault (raised before the call)"""
+
+    def _exc(self, d, call):
+        return self._w.FaultT("injected") if d == "LT" else self._w.FaultP(call, "injected")
+
+    def _gate(self, call):
+        super()._gate(call)
+        d = self._w.workers[self._lid].directive
+        if d in ("LT", "LP") and not call.startswith("rename:"):
+            raise self._exc(d, call)
+
+    def rename(self, a, b):
+        call = "rename:%s>%s" % (c26._kind_of(a), c26._kind_of(b))
+        self._gate(call)
+        d = self._w.workers[self._lid].directive
+        if not self._w.t.has(a):
+            from dromedary.errors import NoSuchFile
+            raise NoSuchFile(a)
+        r = self._w.t.rename(a, b)          # a rename that fails by itself has no effect to lose
+        if d in ("LT", "LP"):
+            raise self._exc(d, call)
+        return r
+
+
+class World27(c26.World):
+    """c26.World with lost-reply events and, optionally, no lock directory to start with"""
+
+    def __init__(self, cfgs, held="-", local=False, crashers=(), nolockdir=False):
+        super().__init__(cfgs, held=held, local=local, crashers=crashers)
+        for i, ld in enumerate(self.lds):
+            ld.transport = LostGate(self, i)
+        if nolockdir:
+            self.t.rmdir(c26.LOCK)
+
+    def event(self, ev):
+        if ev[0] != "l":
+            return super().event(ev)
+        lid, directive = int(ev[1:-1]), "L" + ev[-1]
+        w = self.workers[lid]
+        if self.crashed[lid] or not w.busy:
+            return
+        self._set_env(lid)
+        w.calls += 1
+        w.directive = directive
+        w.go.release()
+        self._wait(w)
+
+    def show(self):
+        if not self.t.has(c26.LOCK):
+            return "NOLOCKDIR " + " ".join(
+                "%s/%s/%d/%s" % (w.pending if w.busy and w.pending else "-", "T" if self.lds[i].is_held else "F",
+                                 self.serial[i], w.last) for i, w in enumerate(self.workers))
+        return super().show()
 
 
 def _scenarios():
@@ -70,6 +173,7 @@ def _scenarios():
     steal = [1, 1, True]
     acq_o = ["s1a", "t1", "t1", "t1", "t1"]
     acq_v = ["s0a", "t0", "t0", "t0", "t0"]
+    brk_o = ["s1b"] + ["t1"] * 6
     return [
         ("attempt-free", [plain, plain, plain], "-", [], "a", 4),
         ("attempt-contended", [plain, plain, plain], "-", acq_o, "a", 6),
@@ -79,15 +183,30 @@ def _scenarios():
         ("break-dead", [plain, plain, plain], "-", acq_o + ["x1"], "b", 6),
         ("break-corrupt", [plain, plain, plain], "b1", [], "b", 5),
         ("attempt-on-foreign", [plain, plain, plain], "o99.1", [], "a", 6),
+        # the victim's lock was broken (and possibly retaken) behind its back
+        ("unlock-broken", [plain, plain, plain], "-", acq_v + brk_o, "u", 2),
+        ("unlock-retaken", [plain, plain, plain], "-", acq_v + brk_o + acq_o, "u", 2),
+                ("confirm", [plain, plain, plain], "-", acq_v, "c", 1),
+        ("confirm-broken", [plain, plain, plain], "-", acq_v + brk_o, "c", 1),
+        # a second attempt of a locker whose first attempt lost its confirming peek (the known finding): the lock
+        # on disk is its own, older nonce
+        ("attempt-after-orphan", [plain, plain, plain], "-", ["s0a", "t0", "t0", "t0", "f0T"], "a", 6),
     ]
+
+
+# scenarios whose pairs of fault points are enumerated as well
+DOUBLE = ("attempt-free", "attempt-contended", "attempt-steal", "unlock", "break-dead")
 
 
 class Runner:
     """drives one case on the real code, building the event list as it goes"""
 
-    def __init__(self, cfgs, held, local=False, crashers=()):
+    def __init__(self, cfgs, held, local=False, crashers=(), nolockdir=False):
         self.case = dict(cfgs=[list(c) for c in cfgs], held=held, events=[], local=local)
-        self.w = c26.World([tuple(c) for c in cfgs], held=held, local=local, crashers=set(crashers))
+        if nolockdir:
+            self.case["nolockdir"] = True
+        self.w = World27([tuple(c) for c in cfgs], held=held, local=local, crashers=set(crashers),
+                         nolockdir=nolockdir)
         self.obs = [self.show()]
         self.viol = []
         self.initial_ok = held == "-" or (held.startswith("o"))
@@ -111,7 +230,7 @@ class Runner:
 
     def ev(self, e):
         w = self.w
-        wk = w.workers[int(e[1:-1] if e[0] in "sf" else e[1:])]
+        wk = w.workers[int(e[1:-1] if e[0] in "sfl" else e[1:])]
         pending_before = wk.pending if wk.busy else None
         prev_call = getattr(wk, "c27_prev", None)
         was_busy = wk.busy
@@ -126,19 +245,37 @@ class Runner:
             wk.c27_prev = pending_before
         if e[0] == "s" and not was_busy:
             wk.c27_prev = None
+            wk.c27_lost = False
+        if e[0] == "s" and not was_busy:
+            wk.c27_after_rename = False
+        if e[0] in "tl" and was_busy and pending_before is not None:
+            if pending_before == "rename:P>H" and w.held_content() == "o%d.%d" % (wk.lid, w.serial[wk.lid]):
+                wk.c27_after_rename = True     # the rename into place took effect; only peeks since then
+                if e[0] == "l":
+                    wk.c27_lost = True         # ... and its reply was lost
+            elif pending_before != "get:H" and not (e[0] == "l" and not pending_before.startswith("rename:")):
+                wk.c27_after_rename = False
         # R1
+        d = self.obs[-1].split(" ")[0]
         if self.initial_ok:
-            d = self.obs[-1].split(" ")[0]
             if not (d == "Free" or d.startswith("HeldReadable")):
                 self.viol.append(("after %s the lock on disk is %s: neither free nor held with readable info" % (e, d), None))
+        elif d == "HeldNoInfo" and self.case["held"] != "e":
+            # from a lock with unparsable info (which break_lock can still clear) no operation may go to held/
+            # without any info (which nothing can clear)
+            self.viol.append(("after %s the lock on disk is HeldNoInfo (it started as %s): nothing can clear that"
+                              % (e, self.case["held"]), None))
         # R3: a failed attempt
         if was_busy and not wk.busy and wk.op == "a" and wk.last != "ok":
             ld = w.lds[lid]
             cur = w.held_content()
             mine = "o%d.%d" % (lid, w.serial[lid])
             fam = None
-            if e[0] == "f" and pending_before == "get:H" and prev_call == "rename:P>H":
-                fam = FAMILY_CONFIRM
+            if e[0] in "fl" and pending_before == "get:H" and (
+                    prev_call == "rename:P>H" or getattr(wk, "c27_after_rename", False)):
+                fam = FAMILY_CONFIRM           # a transport error in a peek right after the rename took effect
+            elif getattr(wk, "c27_lost", False):
+                fam = FAMILY_LOST
             if ld.is_held and not getattr(wk, "c27_held_before", False):
                 self.viol.append(("attempt_lock of locker %d raised %s but is_held is True" % (lid, wk.last), None))
             if cur == mine and w.serial[lid] > getattr(wk, "c27_serial_before", 0):
@@ -217,6 +354,79 @@ def fault_case(sc, k, fk, local=False):
         r.close()
 
 
+def lost_case(sc, k, fk, local=False):
+    """call k of the victim's operation is a rename: it takes effect, then raises (lost reply)"""
+    name, cfgs, held, setup, op, _ = sc
+    crashers = {int(e[1:]) for e in setup if e[0] == "x"}
+    r = Runner(cfgs, held, local=local, crashers=crashers)
+    try:
+        for e in setup:
+            r.ev(e)
+        r.ev("s%d%s" % (V, op))
+        for _ in range(k):
+            if not r.w.workers[V].busy:
+                break
+            r.ev("t%d" % V)
+        wk = r.w.workers[V]
+        if not (wk.busy and (wk.pending or "").startswith("rename:")):
+            return None                       # same as the plain fault case
+        r.ev("l%d%s" % (V, fk))
+        r.run_to_idle(V)
+        r.recover(R)
+        return dict(r.case, kind="lost:%s:%d%s" % (name, k, fk)), r.obs, r.viol, True
+    finally:
+        r.close()
+
+
+def double_case(sc, k1, k2, fk1, fk2, local=False):
+    """two faults in one operation: at call k1, and at the k2-th call after it (cleanup included)"""
+    name, cfgs, held, setup, op, _ = sc
+    crashers = {int(e[1:]) for e in setup if e[0] == "x"}
+    r = Runner(cfgs, held, local=local, crashers=crashers)
+    try:
+        for e in setup:
+            r.ev(e)
+        r.ev("s%d%s" % (V, op))
+        n = 0
+        for kk, fk in ((k1, fk1), (k2, fk2)):
+            for _ in range(kk):
+                if not r.w.workers[V].busy:
+                    break
+                r.ev("t%d" % V)
+            if r.w.workers[V].busy:
+                r.ev("f%d%s" % (V, fk))
+                n += 1
+        if n < 2:
+            return None                       # the operation was over before the second fault
+        r.run_to_idle(V)
+        r.recover(R)
+        return dict(r.case, kind="double:%s:%d%s+%d%s" % (name, k1, fk1, k2, fk2)), r.obs, r.viol, True
+    finally:
+        r.close()
+
+
+def nolockdir_case(op, mode, k, fk, local=False):
+    """the lock directory itself does not exist yet (`_create_pending_dir` -> `create()` -> second mkdir): oracle
+    only (the model starts from an existing lock directory).  mode: crash / fault / lost at call k"""
+    r = Runner([[1, 1, False]] * 3, "-", local=local, crashers={V} if mode == "crash" else (), nolockdir=True)
+    try:
+        r.ev("s%d%s" % (V, op))
+        for _ in range(k):
+            if not r.w.workers[V].busy:
+                break
+            r.ev("t%d" % V)
+        inside = r.w.workers[V].busy
+        if mode == "crash":
+            r.ev("x%d" % V)
+        elif inside:
+            r.ev("%s%d%s" % ("f" if mode == "fault" else "l", V, fk))
+            r.run_to_idle(V)
+        r.recover(R)
+        return dict(r.case, kind="nolockdir:%s:%s:%d%s" % (op, mode, k, fk)), r.obs, r.viol, inside
+    finally:
+        r.close()
+
+
 def torn_case(held, local=False):
     r = Runner([[1, 1, False]] * 3, held, local=local)
     try:
@@ -245,7 +455,8 @@ def random_case_job(arg):
 
 def corpus_case(case):
     crashers = {int(e[1:]) for e in case["events"] if e[0] == "x"}
-    r = Runner(case["cfgs"], case.get("held", "-"), local=case.get("local", False), crashers=crashers)
+    r = Runner(case["cfgs"], case.get("held", "-"), local=case.get("local", False), crashers=crashers,
+               nolockdir=case.get("nolockdir", False))
     try:
         for e in case["events"]:
             r.ev(e)
@@ -263,18 +474,51 @@ def _job(j):
         return fault_case(*j[1:])
     if kind == "torn":
         return torn_case(*j[1:])
+    if kind == "lost":
+        return lost_case(*j[1:])
+    if kind == "double":
+        sc, k1, fk1, fk2, local = j[1:]
+        out = []
+        for k2 in range(0, 16):
+            r = double_case(sc, k1, k2, fk1, fk2, local)
+            if r is None:
+                break
+            out.append(r)
+        return out
+    if kind == "nolockdir":
+        return nolockdir_case(*j[1:])
     if kind == "corpus":
         return corpus_case(j[1])
     return random_case_job(j[1:])
 
 
+_VARIANT = ["F"]
+
+
+def probe_variant():
+    """which `_attempt_lock` is this: does the contention handler recognise its own current nonce in held/ (a
+    rename whose reply was lost) and go on to the confirming peek?  -> model variant T, else F"""
+    r = Runner([[1, 1, False]], "-")
+    try:
+        for e in ["s0a", "t0", "t0", "l0T"]:
+            r.ev(e)
+        r.run_to_idle(0)
+        fixed = r.w.workers[0].last == "ok" and r.w.lds[0].is_held
+    finally:
+        r.close()
+    _VARIANT[0] = "T" if fixed else "F"
+    return _VARIANT[0]
+
+
 def model_line(case):
     cfgs = ",".join("%d.%d.%s" % (h, u, "T" if s else "F") for h, u, s in case["cfgs"])
-    return "crash %d %s %s %s" % (len(case["cfgs"]), cfgs, case.get("held", "-"), ",".join(case["events"]) or "-")
+    return "crash %s %d %s %s %s" % (_VARIANT[0], len(case["cfgs"]), cfgs, case.get("held", "-"),
+                                     ",".join(case["events"]) or "-")
 
 
 def run(ctx):
     c26.install()
+    ctx.extra["attempt_lock_variant"] = ("own-nonce-recognised" if probe_variant() == "T" else "plain-contention")
     scs = _scenarios()
     jobs = []
     corpus = os.path.join(env.VERIF, "corpus", "C27")
@@ -289,13 +533,35 @@ def run(ctx):
                 jobs.append(("crash", sc, k, local))
                 for fk in "TP":
                     jobs.append(("fault", sc, k, fk, local))
+                    jobs.append(("lost", sc, k, fk, local))
+            if sc[0] in DOUBLE:
+                for k1 in range(sc[5] + 1):
+                    for fk1 in "TP":
+                        for fk2 in "TP":
+                            jobs.append(("double", sc, k1, fk1, fk2, local))
         for held in ["b0", "b1", "b2", "b3", "o98.0", "o99.7"]:
             jobs.append(("torn", held, local))
-    for _ in range(ctx.pick(1500, 20000)):
-        jobs.append(("random", c26.random_case(ctx.rng, faults=True),
-                     ctx.thorough() and ctx.rng.random() < 0.1))
+        for op, n in (("a", 6), ("b", 1), ("u", 0)):
+            for k in range(n + 1):
+                jobs.append(("nolockdir", op, "crash", k, "", local))
+                for fk in "TP":
+                    jobs.append(("nolockdir", op, "fault", k, fk, local))
+                    jobs.append(("nolockdir", op, "lost", k, fk, local))
+    for _ in range(ctx.pick(800, 20000)):
+        rc = c26.random_case(ctx.rng, faults=True)
+        # some of the faults are lost replies
+        rc["events"] = ["l" + e[1:] if e[0] == "f" and ctx.rng.random() < 0.3 else e for e in rc["events"]]
+        jobs.append(("random", rc, ctx.thorough() and ctx.rng.random() < 0.1))
     cases, lines, outs = [], [], []
-    for case, obs, viol, inside in ctx.pmap(_job, jobs):
+    results = []
+    for res in ctx.pmap(_job, jobs):
+        if res is None:
+            ctx.count("skipped-duplicate")       # a lost reply on a call that is not a rename = the plain fault
+        elif isinstance(res, list):
+            results.extend(res)
+        else:
+            results.append(res)
+    for case, obs, viol, inside in results:
         for what, fam in viol[:3]:
             ctx.violation(case, what, family=fam)
         ctx.case(case, nontrivial=bool(inside))
@@ -304,28 +570,35 @@ def run(ctx):
             ctx.count("scenario:" + case["kind"].split(":")[1])
         ctx.count("final:" + obs[-1].split(" ")[0].split(":")[0])
         for e in case["events"]:
-            if e[0] in "fx":
+            if e[0] in "fxl":
                 ctx.count("ev:" + e[0])
+        if case.get("nolockdir"):
+            ctx.count("oracle-only")          # outside the model (it starts from an existing lock directory)
+            continue
         cases.append(case)
         lines.append(model_line(case))
         outs.append("|".join(obs))
     ctx.diff(cases, lines, outs)
     ctx.exhaustive = True
-    ctx.extra["enumerated"] = "all crash prefixes and all single faults (kinds T,P) of %d victim scenarios" % len(scs)
+    ctx.extra["enumerated"] = ("all crash prefixes, all single faults (kinds T,P) and all single lost replies of %d "
+                               "victim scenarios; all pairs of faults of %d of them; the same from a missing lock "
+                               "directory (oracle only)" % (len(scs), len(DOUBLE)))
     ctx.violations.sort(key=lambda v: v["family"] is not None)
 
 
 def replay(ctx, case):
     c26.install()
+    probe_variant()
     crashers = {int(e[1:]) for e in case["events"] if e[0] == "x"}
-    r = Runner(case["cfgs"], case.get("held", "-"), local=case.get("local", False), crashers=crashers)
+    r = Runner(case["cfgs"], case.get("held", "-"), local=case.get("local", False), crashers=crashers,
+               nolockdir=case.get("nolockdir", False))
     try:
         for e in case["events"]:
             r.ev(e)
         # the recovery verdict (R2) is re-evaluated on the final state
         last = len(case["cfgs"]) - 1
         w = r.w
-        if case.get("kind", "").split(":")[0] in ("crash", "fault", "torn", "random"):
+        if case.get("kind", "").split(":")[0] in ("crash", "fault", "torn", "random", "lost", "double", "nolockdir"):
             cur = w.held_content()
             if not (w.lds[last].is_held and cur == "o%d.%d" % (last, w.serial[last])):
                 r.viol.append(("the recovering locker does not hold the lock at the end (held/info=%s)" % cur, None))
